@@ -22,40 +22,63 @@ def _env():
 
 
 CHUNK = int(os.environ.get("FLACVERIF_KANI_CHUNK", "14"))
+WORKERS = int(os.environ.get("FLACVERIF_KANI_WORKERS", "3"))
+_TIMES = None
 
 
-def run(overlay_dir, units, jobs=8, log_path=None, extra_timeout=120):
+def expected_time(u):
+    """Last measured wall time of a unit (lib/unit_times.json, informational), else a guess."""
+    global _TIMES
+    if _TIMES is None:
+        try:
+            _TIMES = json.load(open(os.path.join(os.path.dirname(os.path.abspath(__file__)), "unit_times.json")))
+        except Exception:
+            _TIMES = {}
+    return _TIMES.get(u["name"], u["timeout"] / 4.0)
+
+
+def run(overlay_dir, units, jobs=8, log_path=None, extra_timeout=120, tag=""):
     """Run `units` in cargo-kani invocations of at most CHUNK harnesses each (the cargo-kani driver
     process keeps every result in memory: with 80 harnesses it was observed at 36 GB resident, and a
-    driver that is killed loses all results).  Units with the longest time limits go first so that
-    the slow ones share an invocation.  Returns ({harness: result}, meta)."""
+    driver that is killed loses all results).  The invocations run WORKERS at a time on the same
+    build (cargo's own lock serialises the one compilation), the units are dealt out longest-first
+    so that the invocations finish together.  Returns ({harness: result}, meta)."""
     if len(units) <= CHUNK:
-        return _run_once(overlay_dir, units, jobs, log_path, extra_timeout)
-    order = sorted(units, key=lambda u: -u["timeout"])
+        return _run_once(overlay_dir, units, jobs, log_path, extra_timeout, tag=tag)
+    order = sorted(units, key=lambda u: -expected_time(u))
+    nchunks = (len(order) + CHUNK - 1) // CHUNK
+    parts = [order[k::nchunks] for k in range(nchunks)]
+    workers = max(1, min(WORKERS, nchunks))
+    jj = max(2, jobs // workers)
     results = {}
-    metas = []
-    for k in range(0, len(order), CHUNK):
-        part = order[k:k + CHUNK]
+    metas = [None] * nchunks
+
+    def work(k):
         lp = None
         if log_path:
-            lp = log_path if k == 0 else log_path.replace(".log", f"-part{k // CHUNK + 1}.log")
-        r, m = _run_once(overlay_dir, part, jobs, lp, extra_timeout)
-        results.update(r)
-        metas.append(m)
+            lp = log_path if k == 0 else log_path.replace(".log", f"-part{k + 1}.log")
+        r, m = _run_once(overlay_dir, parts[k], jj, lp, extra_timeout, tag=f"{tag}-{k}")
+        return k, r, m
+
+    import concurrent.futures
+    with concurrent.futures.ThreadPoolExecutor(max_workers=workers) as ex:
+        for k, r, m in ex.map(work, range(nchunks)):
+            results.update(r)
+            metas[k] = m
     meta = dict(metas[0])
     meta["cmd"] = " ;; ".join(m.get("cmd", "") for m in metas)
-    meta["wall_s"] = sum(m.get("wall_s", 0) for m in metas)
+    meta["wall_s"] = max(m.get("wall_s", 0) for m in metas)
     meta["invocations"] = len(metas)
     meta["overall_timeout"] = any(m.get("overall_timeout") for m in metas)
     return results, meta
 
 
-def _run_once(overlay_dir, units, jobs=8, log_path=None, extra_timeout=120):
+def _run_once(overlay_dir, units, jobs=8, log_path=None, extra_timeout=120, tag=""):
     """Run all `units` (kani) in one cargo-kani invocation.  Returns {harness: result}."""
     results = {}
     if not units:
         return results, {"build_s": 0.0, "cmd": ""}
-    out_json = os.path.join(overlay_dir, "kani-out.json")
+    out_json = os.path.join(overlay_dir, f"kani-out{tag}.json")
     if os.path.exists(out_json):
         os.remove(out_json)
     # per-harness limit: the largest annotated limit of the group, never below 15 minutes, plus 50 %
@@ -78,7 +101,7 @@ def _run_once(overlay_dir, units, jobs=8, log_path=None, extra_timeout=120):
         if isinstance(out, bytes):
             out = out.decode(errors="replace")
         rc, timed_out = -1, True
-        subprocess.run(["pkill", "-f", overlay_dir], check=False)
+        subprocess.run(["pkill", "-f", out_json], check=False)
     wall = time.time() - t0
     if log_path:
         with open(log_path, "w") as f:
